@@ -30,7 +30,10 @@ SigShapes(kt) == IF kt = "ed" THEN {"any"} ELSE {"normal", "r_leading_zero", "s_
 Tampers == {"none", "header_content", "payload_byte", "signature_bit", "other_key_same_type", "other_key_other_type",
             "signature_truncated", "signature_padded", "signature_empty", "signature_der", "unsupported_kty", "two_segments", "four_segments",
             "empty_payload_segment", "bad_base64_header", "bad_base64_payload", "bad_base64_signature", "header_not_json",
-            "header_reserialized"}
+            "header_reserialized",
+            \* a half of the signature plus the group order (the same residue, another byte string): P-521 and Ed25519 leave
+            \* room for it in every signature, the other curves for a signature with a small half (made for a chosen key)
+            "signature_plus_order"}
 
 \* tampers after which the very same key must still verify the very same bytes
 Harmless(t) == t \in {"none", "header_reserialized"}   \* white space in the header does not change its decoded content
